@@ -650,7 +650,7 @@ func poolCount(p *config.Pool) (int64, int64, int64) {
 				if ipConfusesBuggyFirmwares(firstIP) {
 					sz--
 				}
-				if ipConfusesBuggyFirmwares(lastIP) {
+				if ipConfusesBuggyFirmwares(lastIP) && !lastIP.Equal(firstIP) {
 					sz--
 				}
 			}
